@@ -389,7 +389,7 @@ def plan(tier, seed):
     rnd.shuffle(hs)
     hs.sort(key=lambda h: 0 if h.role.startswith("two") else 1)
     grp = Group("c10_codecs", CRATE, "c10_codecs", hs, stubbing=True, jobs=6,
-                timeout=300 if tier == "quick" else 900, mem_gb=8, pre=pre)
+                timeout=1500 if tier == "quick" else 1800, mem_gb=8, pre=pre)
     meta = {
         "rule": "one obligation per (frame kind, group of cut positions) and per (ordered pair of kinds, group of "
                 "cut positions); a frame kind fixes the message variant and all lengths, while ids and body bytes "
